@@ -70,8 +70,9 @@ impl<T> Receiver<T> {
     }
 
     /// Attempts to return a pending value on this receiver without blocking.
+    #[track_caller]
     pub fn try_recv(&self) -> Result<T, std::sync::mpsc::TryRecvError> {
-        if self.object.is_empty() {
+        if self.object.check_empty(location!()) {
             return Err(std::sync::mpsc::TryRecvError::Empty);
         } else {
             self.recv().map_err(|e| e.into())
